@@ -29,7 +29,14 @@ STRESS_PAYLOADS = [
 ]
 
 
+EQUAL_BUT_DIFFERENT = [({"n": 1, "l": [0, 2]}, {"n": 1.0, "l": [0, 2]}), ({"n": 1}, {"n": True}), ({"z": 0.0, "k": "v"}, {"z": -0.0, "k": "v"}),
+                       ({"n": [1, 0]}, {"n": [True, False]}), ({"x": 2 ** 53}, {"x": float(2 ** 53)})]
+
+
 def payload_pair(r, stress):
+    if stress and r.random() < 0.25:
+        a, b = r.choice(EQUAL_BUT_DIFFERENT)      # equal under Python's ==, different JSON values / canonical bytes
+        return (copy.deepcopy(a), copy.deepcopy(b)) if r.random() < .5 else (copy.deepcopy(b), copy.deepcopy(a))
     if stress and r.random() < 0.6:
         P = r.choice(STRESS_PAYLOADS)(r)
         Q = copy.deepcopy(P)
@@ -99,6 +106,9 @@ def run_path(hist, seed, line_key, workdir, stress=False):
             elif a == "junk":
                 env["signatures"][junk_n] = copy.deepcopy(junk_v)
             elif a == "write":
+                if stress and not os.path.exists(path) and r.random() < 0.5:
+                    with open(path, "w") as f:          # a file already there: the same value as emitted by another tool (compact, unsorted)
+                        json.dump(env, f)
                 common.write_metadata_to_file(env, path)
                 with open(path, "rb") as f:
                     data = f.read()
